@@ -129,7 +129,62 @@ func (fr *Frame) execCall(st *State, in ssa.Instruction, cc *ssa.CallCommon) *Va
 		}
 		return fr.inlineCall(st, in, callee, fv, args)
 	}
+	if externalReadOnly(callee) {
+		// library function that only reads its arguments (formatting, string/number helpers, clocks,
+		// logging): no program memory changes; results are fresh unconstrained values. Assumption,
+		// listed in the evidence.
+		c.readonlyExt[shortFn(key)] = true
+		fr.callSiteClauses(st, in, nil, nil)
+		fr.bumpAlloc(st)
+		r := resultVal(sig, fr.freshResults(st, sig, "ext"))
+		fr.callSiteAfter(st, in)
+		return r
+	}
 	return fr.unknownCall(st, in, key, sig)
+}
+
+// externalReadOnly: functions of the standard library that are assumed not to modify any memory
+// visible to /repo code (they read their arguments and return fresh values).
+func externalReadOnly(fn *ssa.Function) bool {
+	if fn == nil || fn.Pkg == nil {
+		// methods of library types: time.Time / time.Duration / strings.Builder are handled by package below
+		if fn == nil || fn.Signature.Recv() == nil {
+			return false
+		}
+	}
+	var pkgPath string
+	if fn.Pkg != nil {
+		pkgPath = fn.Pkg.Pkg.Path()
+	} else if fn.Object() != nil && fn.Object().Pkg() != nil {
+		pkgPath = fn.Object().Pkg().Path()
+	}
+	switch pkgPath {
+	case "strings":
+		if fn.Signature.Recv() != nil {
+			return false // Builder/Reader methods mutate their receiver
+		}
+		return true
+	case "strconv", "errors", "math", "math/bits", "unicode", "unicode/utf8", "path", "path/filepath", "log":
+		return fn.Signature.Recv() == nil || pkgPath == "log"
+	case "time":
+		if fn.Signature.Recv() != nil {
+			if _, isPtr := fn.Signature.Recv().Type().(*types.Pointer); isPtr {
+				return false // Timer/Ticker methods
+			}
+			return true
+		}
+		switch fn.Name() {
+		case "Now", "Since", "Until", "Unix", "Date", "ParseDuration", "Parse":
+			return true
+		}
+		return false
+	case "fmt":
+		switch fn.Name() {
+		case "Sprintf", "Sprint", "Sprintln", "Errorf", "Printf", "Println", "Print":
+			return true
+		}
+	}
+	return false
 }
 
 func ifaceMethodKey(t types.Type, method string) string {
@@ -411,6 +466,9 @@ func (fr *Frame) applyContract(st *State, in ssa.Instruction, ct *Contract, sig 
 		}
 		fr.havocLocs(st, locs)
 		for _, l := range locs {
+			if counterGhosts[l.mapName] {
+				c.counterWrites[l.mapName] = "call of " + shortFn(ct.Key)
+			}
 			if l.mapName == "*" {
 				fr.restoreLocked(pre, st)
 				fr.restoreCaptured(pre, st)
